@@ -16,7 +16,7 @@ const B: &[&str] = &[
     "from_local_some", "from_local_refused_high", "from_local_refused_low", "naive_local_ok", "naive_local_documented_panic",
     "pairs_equal_instant_diff_offset", "pairs_ordered", "convert_zone", "accessors", "text_forms", "leap_second_value",
     "replace_some", "replace_none_no_such_value", "replace_none_instant_out_of_range", "replace_in_headroom", "with_year_same_year_headroom",
-    "with_time", "step_days_some", "step_days_none", "step_months_some", "step_months_none", "step_from_headroom",
+    "with_time", "step_days_some", "step_days_none", "step_months_some", "step_months_none", "step_from_headroom", "variable_offset_zone",
 ];
 const FLOOR: &[&str] = B;
 
@@ -638,6 +638,127 @@ fn all_on_value(loc: &mut Local, x: &Ix, rng: &mut Rng, z: Z) {
     }
 }
 
+/// A zone whose offset changes (through the public `TimeZone` trait): +01:00 before
+/// 2021-03-28T01:00Z, +02:00 until 2021-10-31T01:00Z, +01:00 afterwards. Stepping and field
+/// replacement must act on the wall clock and re-resolve it in the zone; with `FixedOffset` alone an
+/// implementation that steps the UTC value and re-derives the offset is indistinguishable.
+#[derive(Clone, Copy, Debug)]
+struct StepTz;
+const STEP_T0: i64 = 1_616_893_200; // 2021-03-28T01:00:00Z  (gap: wall 02:00..03:00 skipped)
+const STEP_T1: i64 = 1_635_642_000; // 2021-10-31T01:00:00Z  (fold: wall 02:00..03:00 twice)
+fn step_off(u: i64) -> i32 {
+    if (STEP_T0..STEP_T1).contains(&u) {
+        7200
+    } else {
+        3600
+    }
+}
+fn step_candidates(l: i64) -> Vec<i32> {
+    let mut c: Vec<i32> = [3600, 7200].into_iter().filter(|o| step_off(l - *o as i64) == *o).collect();
+    c.sort_by_key(|o| l - *o as i64);
+    c
+}
+impl TimeZone for StepTz {
+    type Offset = FixedOffset;
+    fn from_offset(_: &FixedOffset) -> Self {
+        StepTz
+    }
+    #[allow(deprecated)]
+    fn offset_from_local_date(&self, local: &chrono::NaiveDate) -> MappedLocalTime<FixedOffset> {
+        self.offset_from_local_datetime(&local.and_time(NaiveTime::MIN))
+    }
+    fn offset_from_local_datetime(&self, local: &chrono::NaiveDateTime) -> MappedLocalTime<FixedOffset> {
+        let c = step_candidates(local.and_utc().timestamp());
+        let fo = |o: i32| FixedOffset::east_opt(o).unwrap();
+        match c.len() {
+            0 => MappedLocalTime::None,
+            1 => MappedLocalTime::Single(fo(c[0])),
+            _ => MappedLocalTime::Ambiguous(fo(c[0]), fo(c[1])),
+        }
+    }
+    #[allow(deprecated)]
+    fn offset_from_utc_date(&self, utc: &chrono::NaiveDate) -> FixedOffset {
+        self.offset_from_utc_datetime(&utc.and_time(NaiveTime::MIN))
+    }
+    fn offset_from_utc_datetime(&self, utc: &chrono::NaiveDateTime) -> FixedOffset {
+        FixedOffset::east_opt(step_off(utc.and_utc().timestamp())).unwrap()
+    }
+}
+
+fn phase_step_zone(ctx: &Ctx, rep: &Report, bk: usize) {
+    let n = ctx.n(60_000, 3_000_000);
+    par_shards(rep, ctx.threads, 16, |shard| {
+        let mut rng = Rng::new(ctx.seed, "C04/step-zone", shard as u64);
+        let mut loc = rep.local();
+        for _ in 0..n / 16 {
+            // an instant within a few days (or months) of one of the two offset changes
+            let t = if rng.chance(1, 2) { STEP_T0 } else { STEP_T1 };
+            let u = match rng.below(4) {
+                0 => t + rng.range(-3 * 86_400, 3 * 86_400),
+                1 => t + rng.range(-7300, 7300),
+                2 => t + rng.range(-40, 40) * 86_400 + rng.range(-4000, 4000),
+                _ => t + rng.range(-400, 400) * 86_400,
+            };
+            let Some(un) = chrono::DateTime::from_timestamp(u, 0).map(|d| d.naive_utc()) else { continue };
+            let dt: DateTime<StepTz> = StepTz.from_utc_datetime(&un);
+            let wall = u + step_off(u) as i64;
+            loc.eval();
+            loc.bucket(bk);
+            // the wall clock shown must be utc + offset in force
+            if guard(|| dt.naive_local().and_utc().timestamp()).ok() != Some(wall) || dt.offset().local_minus_utc() != step_off(u) {
+                loc.violation("C04/variable-offset-zone/from_utc_datetime/wrong-wall-clock", json!({"utc": u, "expected_wall": wall}));
+            }
+            let nd = rng.range(0, 5) as u64;
+            let nm = rng.range(0, 8) as u32;
+            let (hh, dd) = (rng.range(0, 23) as u32, rng.range(1, 28) as u32);
+            let w = RDt::new(u.div_euclid(86_400) + rc::UNIX_EPOCH_DAY + (u.rem_euclid(86_400) + step_off(u) as i64).div_euclid(86_400), (u.rem_euclid(86_400) + step_off(u) as i64).rem_euclid(86_400), 0);
+            let (y, m, d) = rc::civil_from_days(w.day);
+            type Op = (&'static str, Option<i64>, Box<dyn Fn(&DateTime<StepTz>) -> Option<DateTime<StepTz>>>);
+            let month_shift = |k: i64| -> Option<i64> {
+                let idx = y * 12 + (m - 1) + k;
+                let (ty, tm) = (idx.div_euclid(12), idx.rem_euclid(12) + 1);
+                Some((rc::day_number(ty, tm, d.min(rc::days_in_month(ty, tm))) - rc::UNIX_EPOCH_DAY) * 86_400 + w.secs)
+            };
+            let wall_at = |day: i64, secs: i64| (day - rc::UNIX_EPOCH_DAY) * 86_400 + secs;
+            let ops: Vec<Op> = vec![
+                ("checked_add_days", Some(wall + nd as i64 * 86_400), Box::new(move |x| x.checked_add_days(Days::new(nd)))),
+                ("checked_sub_days", Some(wall - nd as i64 * 86_400), Box::new(move |x| x.checked_sub_days(Days::new(nd)))),
+                ("checked_add_months", month_shift(nm as i64), Box::new(move |x| x.checked_add_months(Months::new(nm)))),
+                ("checked_sub_months", month_shift(-(nm as i64)), Box::new(move |x| x.checked_sub_months(Months::new(nm)))),
+                ("with_hour", Some(wall_at(w.day, hh as i64 * 3600 + w.secs % 3600)), Box::new(move |x| x.with_hour(hh))),
+                ("with_day", if rc::valid_ymd(y, m, dd as i64) { Some(wall_at(rc::day_number(y, m, dd as i64), w.secs)) } else { None }, Box::new(move |x| x.with_day(dd))),
+            ];
+            for (name, exp_wall, f) in ops {
+                let Some(ew) = exp_wall else { continue };
+                let cands = step_candidates(ew);
+                let identity = ew == wall && (name.ends_with("days") && nd == 0 || name.ends_with("months") && nm == 0);
+                match guard(|| f(&dt)) {
+                    Ok(Some(r)) => {
+                        let rw = guard(|| r.naive_local().and_utc().timestamp()).ok();
+                        let ro = r.offset().local_minus_utc();
+                        if rw != Some(ew) || step_off(r.timestamp()) != ro {
+                            loc.violation(
+                                &format!("C04/variable-offset-zone/{}/result-is-not-the-stepped-wall-clock", name),
+                                json!({"utc": u, "wall": wall, "arg": [nd, nm as u64, hh as u64, dd as u64], "expected_wall": ew, "observed_wall": rw, "observed_offset": ro}),
+                            );
+                        }
+                    }
+                    Ok(None) => {
+                        if cands.len() == 1 && !identity {
+                            loc.violation(
+                                &format!("C04/variable-offset-zone/{}/none-though-the-wall-clock-exists-once", name),
+                                json!({"utc": u, "wall": wall, "arg": [nd, nm as u64, hh as u64, dd as u64], "expected_wall": ew, "offset_there": cands}),
+                            );
+                        }
+                    }
+                    Err(p) => loc.violation(&format!("C04/variable-offset-zone/{}/panic@{}", name, p.site()), json!({"utc": u, "panic": p.to_json()})),
+                }
+            }
+            loc.nontrivial(h2(91, h2(u as u64, (nd * 31 + nm as u64) * 24 + hh as u64)));
+        }
+    });
+}
+
 pub fn run(ctx: &Ctx) -> Outcome {
     let rep = Report::new("C04", B, FLOOR);
     if let Err(e) = rc::self_test().and_then(|_| ri::self_test()) {
@@ -739,6 +860,9 @@ pub fn run(ctx: &Ctx) -> Outcome {
             }
         }
     }
+
+    // 2c. a zone whose offset changes (user-defined TimeZone)
+    phase_step_zone(ctx, &rep, bi("variable_offset_zone"));
 
     // 3. pairs
     {
